@@ -702,8 +702,14 @@ class Check:
                     want_size += int(rrow[1] or 0)
                 # line counts of readable rows from a dedicated fault-free per-row run
                 lres = sb.run(["select path, line_count" + self.from_clause(roots) + " into list"], plan=base_plan)
+                # which files were unreadable *in the aggregate run* (its own recorded history decides)
+                agg_fired = set()
+                for l in ares.log:
+                    if " inj:fail" in l and (" open " in l or " read " in l):
+                        agg_fired.add(unq(l.split(" ")[3]))
                 for prow in lres.rows(2):
-                    if prow[0] in faulted_paths:
+                    wp = r0["top"] + "/" + prow[0][len(pre):].decode("utf-8")
+                    if self.link_target(nm, wp) in agg_fired:
                         continue
                     want_lines += int(prow[1] or 0)
                 if bad or len(arow) != 1:
